@@ -1,19 +1,21 @@
 """C11 — no loss pattern stalls a connection permanently."""
 from props import _hc
-from hc_oracles import stall_oracle, crash_oracle
+from hc_oracles import stall_oracle, crash_oracle, rtt_recovery_oracle
 
 PROP = "C11"
 COQ_FILE = "props/C11.v"
-THEOREMS = ['C11_sync_due', 'C11_frame_window_resync', 'C11_rate_floor_on_expiry', 'C11_ack_releases_window']
+THEOREMS = ['C11_sync_due', 'C11_frame_window_resync', 'C11_rate_floor_on_expiry', 'C11_ack_releases_window', 'C11_step_remembers_recent']
 USES_FLOATS = True
 NEEDS_RELEASE = False
-ASSUMPTIONS = ['proved: local correctness of the recovery mechanisms (sync due, frame window resync, rate floor, ack releases window); NOT proved: end-to-end recovery after arbitrary blackouts / rate recovery above the floor (partial); decided by blackout/live streams with the stall oracle']
+ASSUMPTIONS = ['proved: local correctness of the recovery mechanisms (sync due, frame window resync, rate floor, ack releases window; step() forgets only frames older than max(4*rtt, rto) and keeps every younger one); NOT proved: end-to-end recovery after arbitrary blackouts / rate recovery above the floor (partial); decided by blackout/live streams with the stall oracle', "the rttstep stream (a lasting 20-60x rise of the round-trip time on an ideal link, 70 s of virtual time, no credit override) with rtt_recovery_oracle decides the 'lasting change of the round-trip time' clause on the implementation (defect D21 was found and repaired there)"]
 THEOREM_STATEMENTS = []
 
 
 def streams(seed, tier):
-    return _hc.build_streams(["blackout", "live"], seed, tier, 1.2)
+    return _hc.build_streams(["blackout", "live"], seed, tier, 1.2) + _hc.build_streams(["rttstep"], seed, tier, 1.0)
 
 
 def oracle(name, ops, out):
+    if _hc.stream_of(name) == "rttstep":
+        return _hc.run_oracles({"*": [crash_oracle, rtt_recovery_oracle]}, name, ops, out)
     return _hc.run_oracles({"*": [crash_oracle, stall_oracle]}, name, ops, out)
